@@ -51,11 +51,12 @@ fn scan(s: &str, pred: impl Fn(u8) -> bool) -> Option<&'static str> {
   None
 }
 
-/// true when the first '/', '?' or '#' of `s` directly follows a well-formed %XY triple.
+/// true when the first '/', '?' or '#' of `s` directly follows a '%' + two characters group.
 fn delim_after_pct(s: &str) -> bool {
   let b = s.as_bytes();
   match b.iter().position(|c| matches!(c, b'/' | b'?' | b'#')) {
-    Some(i) if i >= 3 => b[i - 3] == b'%' && b[i - 2].is_ascii_hexdigit() && b[i - 1].is_ascii_hexdigit(),
+    // the parser takes '%' plus any two bytes as an escape and then skips one more character
+    Some(i) if i >= 3 => b[i - 3] == b'%',
     _ => false,
   }
 }
@@ -64,7 +65,7 @@ fn reparse_class(s: &str) -> &'static str {
   let b = s.as_bytes();
   for i in 0..b.len() {
     if b[i] == b'%' && i + 2 < b.len() && b[i + 1].is_ascii_hexdigit() && b[i + 2].is_ascii_hexdigit() {
-      if i + 3 == b.len() || matches!(b[i + 3], b'/' | b'?' | b'#') {
+      if i + 3 < b.len() && matches!(b[i + 3], b'/' | b'?' | b'#') {
         return "pct-before-delimiter";
       }
     }
@@ -600,7 +601,8 @@ impl Ctx {
         let vs = snap_url(&v).ok();
         let eq = catch(|| v == *u).unwrap_or(false);
         if vs.as_ref() != Some(after) || !eq {
-          self.viol(&format!("{}-ok-reparses-different:{}", op, reparse_class(&after.s)), || {
+          let cls = vs.as_ref().map_or("other".to_string(), |x| differs_class(&after.s, &x.s));
+          self.viol(&format!("{}-ok-reparses-different:{}", op, cls), || {
             (format!("{} succeeded, value prints as {:?} but re-parsing that gives {:?} (==: {})", op, after.s, vs.map(|x| x.s), eq), ctx)
           });
         }
@@ -1105,7 +1107,7 @@ fn mutate(rng: &mut Rng, s: &str) -> String {
 
 fn hand_segments() -> Vec<String> {
   let v = [
-    "", "/", "?", "#", "/a", "a", "?a", "#a", "??a", "##a", "?#", "/?#", "/a?b#c", "//", "/a//b", "/.", "/..", "/../x", "/a/../b", "/./a", "..", ".", "a/b", "/a b", "/a\n", " /a", "/a ", "?a b",
+    "", "/", "?", "#", "/a", "a", "?a", "#a", "??a", "##a", "???", "???a", "/p???b", "??", "?a??b", "?#", "/?#", "/a?b#c", "//", "/a//b", "/.", "/..", "/../x", "/a/../b", "/./a", "..", ".", "a/b", "/a b", "/a\n", " /a", "/a ", "?a b",
     "#a b", "?a#b", "#a#b", "#a?b", "?a?b", "/a?b", "/a#b", "?a/b", "#a/b", "/%41", "/%4", "/%", "/%zz", "/%+1", "/%41{", "?%41", "?%4", "?%+1", "?%41{", "#%41", "#%4", "#%+1", "#%41{", "%41", "%4", "%",
     "%+f", "%-1", "% 1", "a%4", "a%41{b", "a%41/b", "a%41#b", "a%41?b", "a:", ":a", "a::b", ":", "::", "a.b-c_d", "A", "é", "/é", "?é", "#é", "{", "/{", "?{", "#{", "a{", "did:x:y", "/did:x:y", "did:m:a",
     "/a:b@c", "?a=1&b=2", "?a=1&b=2#k", "#key-1", "/p?", "/p#", "?q#", "?", "/~!$&'()*+,;=@", "?~!$&'()*+,;=@/?", "#~!$&'()*+,;=@/?", "/[", "/]", "/|", "/\\", "/^", "/`", "/\"", "/<", "/>", "?[", "#[",
@@ -1210,7 +1212,7 @@ fn main() {
 
   // ---- C. whitespace / control characters around valid strings
   let ws = ["", " ", "\n", "\t", "\r", "\0", "\x7f", "\x0b", "\x0c", "\x1f", "\u{a0}", "\u{2003}", "\u{feff}", " \n", "\r\n", "  "];
-  let cores = ["did:example:123", "did:m:a/p", "did:m:a?q", "did:m:a#f", "did:m:a/p?q#f", "did:m:a%41", "did:m:a:b", "did:m:a??q", "did:m:a?", "did:m:a#", "did:m:a/"];
+  let cores = ["did:example:123", "did:m:a/p", "did:m:a?q", "did:m:a#f", "did:m:a/p?q#f", "did:m:a%41", "did:m:a:b", "did:m:a??q", "did:m:a?", "did:m:a#", "did:m:a/", "did:m:a?#", "did:m:a??q#", "did:m:a:", "did:m:a%41b/c", "did:m:a%+1b", "did:m:a%41{"];
   for core in cores {
     for pre in ws {
       for post in ws {
